@@ -54,13 +54,40 @@ static sf_count_t vox_write_d (SF_PRIVATE *psf, const double *ptr, sf_count_t le
 
 static int vox_read_block (SF_PRIVATE *psf, IMA_OKI_ADPCM *pvox, short *ptr, int len) ;
 
+/*
+**	The codec packs two samples into one byte. A call with an odd number of
+**	items leaves half a byte over : that sample is held here until the next
+**	call (or, when writing, until the file is closed).
+*/
+typedef struct
+{	IMA_OKI_ADPCM	codec ;		/* Must be the first member. */
+	int				have_carry ;
+	short			carry ;
+} VOX_PRIVATE ;
+
 /*------------------------------------------------------------------------------
 */
 
 static int
 codec_close (SF_PRIVATE * psf)
 {
-	IMA_OKI_ADPCM * p = (IMA_OKI_ADPCM *) psf->codec_data ;
+	VOX_PRIVATE * pvox = (VOX_PRIVATE *) psf->codec_data ;
+	IMA_OKI_ADPCM * p = &pvox->codec ;
+
+	if (psf->file.mode == SFM_WRITE && pvox->have_carry)
+	{	/*
+		**	An odd number of samples in total : the encoder fills the last
+		**	byte with a zero valued sample.
+		*/
+		p->pcm [0] = pvox->carry ;
+		p->pcm_count = 1 ;
+		pvox->have_carry = 0 ;
+
+		ima_oki_adpcm_encode_block (p) ;
+
+		if (psf_fwrite (p->codes, 1, p->code_count, psf) != p->code_count)
+			psf_log_printf (psf, "*** Warning : short write of the last sample.\n") ;
+		} ;
 
 	if (p->errors)
 		psf_log_printf (psf, "*** Warning : ADPCM state errors: %d\n", p->errors) ;
@@ -69,7 +96,7 @@ codec_close (SF_PRIVATE * psf)
 
 int
 vox_adpcm_init (SF_PRIVATE *psf)
-{	IMA_OKI_ADPCM *pvox = NULL ;
+{	VOX_PRIVATE *pvox = NULL ;
 
 	if (psf->file.mode == SFM_RDWR)
 		return SFE_BAD_MODE_RW ;
@@ -77,11 +104,11 @@ vox_adpcm_init (SF_PRIVATE *psf)
 	if (psf->file.mode == SFM_WRITE && psf->sf.channels != 1)
 		return SFE_CHANNEL_COUNT ;
 
-	if ((pvox = malloc (sizeof (IMA_OKI_ADPCM))) == NULL)
+	if ((pvox = malloc (sizeof (VOX_PRIVATE))) == NULL)
 		return SFE_MALLOC_FAILED ;
 
 	psf->codec_data = (void*) pvox ;
-	memset (pvox, 0, sizeof (IMA_OKI_ADPCM)) ;
+	memset (pvox, 0, sizeof (VOX_PRIVATE)) ;
 
 	if (psf->file.mode == SFM_WRITE)
 	{	psf->write_short	= vox_write_s ;
@@ -113,7 +140,7 @@ vox_adpcm_init (SF_PRIVATE *psf)
 	if (psf_fseek (psf, 0 , SEEK_SET) == -1)
 		return SFE_BAD_SEEK ;
 
-	ima_oki_adpcm_init (pvox, IMA_OKI_ADPCM_TYPE_OKI) ;
+	ima_oki_adpcm_init (&pvox->codec, IMA_OKI_ADPCM_TYPE_OKI) ;
 
 	return 0 ;
 } /* vox_adpcm_init */
@@ -123,7 +150,14 @@ vox_adpcm_init (SF_PRIVATE *psf)
 
 static int
 vox_read_block (SF_PRIVATE *psf, IMA_OKI_ADPCM *pvox, short *ptr, int len)
-{	int	indx = 0, k ;
+{	VOX_PRIVATE *pcarry = (VOX_PRIVATE *) psf->codec_data ;
+	int	indx = 0, k ;
+
+	if (pcarry->have_carry && len > 0)
+	{	/* The second sample of the byte the previous call ended in. */
+		ptr [indx ++] = pcarry->carry ;
+		pcarry->have_carry = 0 ;
+		} ;
 
 	while (indx < len)
 	{	pvox->code_count = (len - indx > IMA_OKI_ADPCM_PCM_LEN) ? IMA_OKI_ADPCM_CODE_LEN : (len - indx + 1) / 2 ;
@@ -138,6 +172,12 @@ vox_read_block (SF_PRIVATE *psf, IMA_OKI_ADPCM *pvox, short *ptr, int len)
 		pvox->code_count = k ;
 
 		ima_oki_adpcm_decode_block (pvox) ;
+
+		if (pvox->pcm_count > len - indx)
+		{	/* One sample more than was asked for : hold it for the next call. */
+			pcarry->carry = pvox->pcm [-- pvox->pcm_count] ;
+			pcarry->have_carry = 1 ;
+			} ;
 
 		memcpy (&(ptr [indx]), pvox->pcm, pvox->pcm_count * sizeof (short)) ;
 		indx += pvox->pcm_count ;
@@ -266,19 +306,39 @@ vox_read_d (SF_PRIVATE *psf, double *ptr, sf_count_t len)
 
 static int
 vox_write_block (SF_PRIVATE *psf, IMA_OKI_ADPCM *pvox, const short *ptr, int len)
-{	int	indx = 0, k ;
+{	VOX_PRIVATE *pcarry = (VOX_PRIVATE *) psf->codec_data ;
+	int	indx = 0, k, count ;
 
 	while (indx < len)
-	{	pvox->pcm_count = (len - indx > IMA_OKI_ADPCM_PCM_LEN) ? IMA_OKI_ADPCM_PCM_LEN : len - indx ;
+	{	pvox->pcm_count = 0 ;
 
-		memcpy (pvox->pcm, &(ptr [indx]), pvox->pcm_count * sizeof (short)) ;
+		if (pcarry->have_carry)
+		{	/* The sample the previous call left over goes first. */
+			pvox->pcm [pvox->pcm_count ++] = pcarry->carry ;
+			pcarry->have_carry = 0 ;
+			} ;
+
+		count = IMA_OKI_ADPCM_PCM_LEN - pvox->pcm_count ;
+		if (count > len - indx)
+			count = len - indx ;
+
+		memcpy (&(pvox->pcm [pvox->pcm_count]), &(ptr [indx]), count * sizeof (short)) ;
+		pvox->pcm_count += count ;
+		indx += count ;
+
+		if (pvox->pcm_count % 2 == 1)
+		{	/* Half a byte : hold the sample for the next call or for codec_close. */
+			pcarry->carry = pvox->pcm [-- pvox->pcm_count] ;
+			pcarry->have_carry = 1 ;
+			} ;
+
+		if (pvox->pcm_count == 0)
+			break ;
 
 		ima_oki_adpcm_encode_block (pvox) ;
 
 		if ((k = (int) psf_fwrite (pvox->codes, 1, pvox->code_count, psf)) != pvox->code_count)
 			psf_log_printf (psf, "*** Warning : short write (%d != %d).\n", k, pvox->code_count) ;
-
-		indx += pvox->pcm_count ;
 		} ;
 
 	return indx ;
